@@ -22,7 +22,11 @@ CFG = {
             "bytes, hostile size prefixes and correctly ECIES-encrypted malformed plaintexts. Base protocol: readProtocolHandshake and the real "
             "Server.runPeer over the real rlpx transport with disconnect reasons 0..2^64-1, pings, unknown/out-of-range codes. aqua: the real "
             "ProtocolManager.handleMsg / peer.readStatus behind a stub transport on valid payloads of every message code, every truncation, "
-            "mutations, random bytes, the ProtocolMaxMsgSize lattice and GetBlockHeaders overflow lattices. Silent / stalling peers: 16 scenarios "
+            "mutations, random bytes, the ProtocolMaxMsgSize lattice and GetBlockHeaders overflow lattices. Pipelined frame sessions: 3..6 frames (0..70000 bytes, around the 64 KiB "
+            "mark, snappy on/off) are all read before any payload is consumed (also through Peer.readLoop with a slow handler and pings in "
+            "between); every payload must still equal what was written. Consistently inflated RLP length prefixes: 192 short signed datagrams "
+            "claiming 2^10..2^63 bytes at 12 string/tail positions with all enclosing lists adjusted; error, no panic, allocation <= 1 MiB. "
+            "Silent / stalling peers: 16 scenarios "
             "run concurrently, one per blocking read/write on a handler path (aqua ProtocolManager.handle / peer.Handshake: no Status, no reads, "
             "Status after the timeout; Server.SetupConn inbound and dialed: nothing, half an auth packet, size prefix only, silence after the "
             "encryption handshake with and without reading, half a frame header; established peers going silent / stopping mid-frame), each must "
@@ -42,6 +46,8 @@ CFG = {
                     "frame_tamper_detected_partial assumes collision-freedom of the truncated Keccak MAC on the two inputs of the comparison reached; unforgeability when both a region and its MAC field are replaced is a cryptographic assumption exercised on the real primitives only",
                     "'never wedges' is a runtime observation: in-memory connections that end with EOF under a watchdog, and silent/stalling peers on pipes judged against the stage's own timeout (5 s handshakes, 30 s frame read deadline) plus 12 s slack",
                     "identities with a coordinate >= P that reduce to a curve point (x+P) are accepted by HEAD (btcec reduces mod P); the model mirrors this: identity malleability, not an authentication break",
+                    "tie assumption (named by readMsg_payload_independent_of_later_frames): a delivered Msg is a value in the model; for Go this is checked by pipelined sessions that hold 3..6 Msgs unconsumed",
+                    "tie assumption (named by discovery_decode_alloc_bounded): the rlp stream of decodePacket is limited to the signed data; checked by inflated-length datagrams with allocation measurement",
                     "goroutine lifecycles of p2p.Server beyond runPeer are not modelled"],
     "trusted_base": ["Model.Net mirrors p2p/discover/udp.go decodePacket/encodePacket/expired, p2p/rlpx.go WriteMsg/ReadMsg/updateMAC/readHandshakeMsg, "
                      "aqua/handler.go handleMsg front and p2p/rlpx.go readProtocolHandshake front, with Go slice/index expressions as partial operations"],
